@@ -178,6 +178,11 @@ def py_eq(I, a, b):
             s, l = (a, b) if ka == "seq" else (b, a)
             return s.t == list_to_seq(I, l, s.elem)
         return False      # different types never compare equal
+    if isinstance(a, SObj) and isinstance(b, SObj) and (a.ghost.get("eq_unknown") or b.ghost.get("eq_unknown")):
+        # abstract objects whose class defines its own (structural) equality: == between two different objects is an unknown
+        # symmetric boolean, one per pair
+        key = tuple(sorted((a.ghost.get("eq_unknown") or str(id(a)), b.ghost.get("eq_unknown") or str(id(b)))))
+        return z3.Bool(f"objeq!{key[0]}!{key[1]}")
     if isinstance(a, SObj) and isinstance(b, SObj):
         eqm = a.cls.find_method("__eq__") if isinstance(a.cls, ClassInfo) else None
         if eqm is not None:
